@@ -49,6 +49,10 @@ CHECKS = {
          "Trees with nesting, src components, symlinked files/directories, dangling links, odd names; configurations CLI/-o, process_dir/process/process_current_dir/process_file, OUT_DIR conventions, in-source; expected file set, contents, error status and rerun directives are compared."),
  "C24": ("translation_validation", "3/C24", "translation validation: proc_macro2 token streams of the output under each option combination vs the default output",
          "Each accepted grammar is generated under all 8 combinations of --comments/--no-whitespace/--report (and through the setters for a slice); token streams (operators re-glued by maximal munch) must be identical."),
+ "C27": ("exploration", "3/C27", "sanitizers + result monitor: one multi-threaded subject program run natively (result equality vs sequential baseline), under ThreadSanitizer (-Zbuild-std) and under Miri (many seeds)",
+         "Shared Arc<Parser> values (built-in lexer and extern tokens) are hammered from 8-32 threads with a start barrier; every result is compared with a fresh-parser baseline; TSan and Miri reports are violations; Send+Sync is asserted at compile time."),
+ "C28": ("exploration", "3/C28", "exhaustive runtime monitor over small domains with recording closures vs an independent re-statement of the documented behaviour",
+         "All 128 ParseError values over the small domains are pushed through map_location/map_token/map_error/Display/From; call sequences of the closures are recorded (both span ends, start then end)."),
 }
 checks = []
 for p in props:
